@@ -182,6 +182,8 @@ def generate(rng, opts):
         "import_sources": rng.choice([["pkg._impl"], ["pkg._impl", "pkg._missing"], ["pkg._impl", "pkg._missing", "ext"], ["ext"]]),
         "p_star": rng.choice([0.0, 0.0, 0.4]),
         "p_guard": rng.choice([0.0, 0.0, 0.2]),
+        # a wildcard import that only the stubs have (lazy `__getattr__` packages whose __init__.pyi re-exports with a star)
+        "p_star_st": rng.choice([0.0, 0.0, 0.35]),
     }
     if opts.get("no_known"):
         cfg["p_overload_impl"] = 0.0
@@ -220,6 +222,10 @@ def generate(rng, opts):
         if has_rt and placement != "single" and mp != "pkg._impl" and rng.random() < cfg["p_star"]:
             # `from pkg._impl import *` as the first statement: re-exports f, g, C, x unless defined locally
             rt.insert(0, {"k": "star", "name": "*", "from": "pkg._impl"})
+        elif has_rt and has_st and placement != "single" and mp != "pkg._impl" and rng.random() < cfg["p_star_st"]:
+            # `from pkg._impl import *` in the stubs only, above or below the stubs' own definitions: the names it
+            # brings are stub-only members unless the runtime module defines them itself
+            st.insert(rng.choice([0, len(st)]), {"k": "star", "name": "*", "from": "pkg._impl"})
         modules[mp] = {
             "rt": {"doc": _gen_doc(rng, "rt " + mp), "members": rt} if has_rt else None,
             "st": {"doc": _gen_doc(rng, "st " + mp), "members": st} if has_st else None,
@@ -420,6 +426,13 @@ def exp_container(rt, st, nested_stub_only=False):
         local = {m["name"] for m in rt if m["k"] != "star"}
         star = next(m for m in rt if m["k"] == "star")
         rt = [m for m in rt if m["k"] != "star"] + [{"k": "import", "name": n, "from": star["from"], "orig": n} for n in _STAR_NAMES if n not in local]
+    if any(m["k"] == "star" for m in st):
+        # a wildcard import in the stubs: each public name of the source module that the stubs do not bind themselves
+        # is an imported stub name (never merged into a runtime member; stub-only where the runtime has none)
+        # (overloads without an implementation bind no member)
+        st_local = {m["name"] for m in st if m["k"] != "star" and not (m["k"] == "overloads" and m.get("impl") is None)}
+        star = next(m for m in st if m["k"] == "star")
+        st = [m for m in st if m["k"] != "star"] + [{"k": "import", "name": n, "from": star["from"], "orig": n} for n in _STAR_NAMES if n not in st_local]
     rt_by = {m["name"]: m for m in rt}
     for m in rt:
         out[m["name"]] = exp_alone(m, "rt")
@@ -1063,7 +1076,7 @@ class _Prop:
         "(sorted, reversed, hashed permutation of every directory listing) x {x.py before x.pyi, x.pyi before x.py}; "
         "each load is compared with a reference merge model and monitored for alias resolution inside merger.py, "
         "and the two pair orders of one base order must give the same normalised tree. Non-trivial = at least one directory listing had a choice of order; distinct = "
-        "distinct (placement, merged-tree hash, number of schedules), counted with a set of 64-bit hashes. Also drawn: decorators, class bases, properties with setters/deleters, shuffled stub parameter order, wildcard re-exports (`from pkg._impl import *`) in runtime modules, find_stubs_package independent of the placement, either order of the two search paths; every load is additionally compared with a stubs-free load of the same world (no runtime fact may change) and checked for parent/container consistency. Round j/k: members under `if TYPE_CHECKING:`; runtime modules that exist only in compiled form (.so/.pyd/.pyc next to their stubs, analysed through a stand-in inspector); stubs declared at the public location of a class the runtime re-exports (its stub-only members must reach the class)."
+        "distinct (placement, merged-tree hash, number of schedules), counted with a set of 64-bit hashes. Also drawn: decorators, class bases, properties with setters/deleters, shuffled stub parameter order, wildcard re-exports (`from pkg._impl import *`) in runtime modules, find_stubs_package independent of the placement, either order of the two search paths; every load is additionally compared with a stubs-free load of the same world (no runtime fact may change) and checked for parent/container consistency. Round r: wildcard imports that only the stubs have. Round j/k: members under `if TYPE_CHECKING:`; runtime modules that exist only in compiled form (.so/.pyd/.pyc next to their stubs, analysed through a stand-in inspector); stubs declared at the public location of a class the runtime re-exports (its stub-only members must reach the class)."
     )
     COMPONENTS = {
         "real": ["_griffe.loader", "_griffe.finder", "_griffe.agents.visitor", "_griffe.merger", "_griffe.mixins.set_member", "_griffe.models", "real files on tmpfs"],
